@@ -110,7 +110,7 @@ class SysSim(Engine):
     def generate(self, task, prop, seed, tier):
         rng = Rng(self.NAME, prop, seed, task["kind"], task["idx"])
         if prop == "C18":
-            world = gen_sysworld(rng)
+            world = gen_sysworld(rng, blank_names=True)  # no files are named after flows here
             ops = []
             if rng.chance(0.45):
                 cands = [k for k in DEF_FAULTS + FILE_FAULTS if fault_applicable(world, {"kind": k, "k": 0})]
